@@ -154,7 +154,8 @@ class Actor(object):
                     return False
                 sn = self.spare_subs.pop(0)
                 sm = pool.mat(sn)
-                fl = ['EncryptCommunications'] if sm['alg'] == 18 else ['Sign']
+                # every other signing subkey is also allowed to certify: certifications, revocations and new identities asked of the KEY are still the key's own
+                fl = ['EncryptCommunications'] if sm['alg'] == 18 else (['Sign', 'Certify'] if sum(1 for x in m.subs.values() if x['signing']) % 2 == 0 else ['Sign'])
                 sk = pool.pgpy_bare(sn)
                 if m.protected:
                     sk.protect(m.protected, SymmetricKeyAlgorithm.AES128, HashAlgorithm.SHA1)
